@@ -21,7 +21,7 @@ RULE = ("(a) api: sequences of 1-5 public coroutines (read_device_info, read_run
         "that arrive while a kept-alive socket is idle; (b) ident: connect()/discover()/read_device_info() against "
         "peers whose identification blocks are arbitrary checksum-valid bytes (non-ASCII, NUL, UTF-16-looking); "
         "(c) count: ALL success/failure histories of length 8 (256) x family x transport on one inverter object plus "
-        "seeded histories with rejections.  Oracles: escaping exception is an InverterError (ValueError accepted only "
+        "all histories of length 5 over {answered, silent, socket error} + seeded histories with rejections.  Oracles: escaping exception is an InverterError (ValueError accepted only "
         "from single-value read_sensor/read_setting and the getters built on them); the loop's exception handler "
         "received nothing; consecutive_failures_count == failures since the last success.  Non-trivial: a fault "
         "fired / non-ASCII identification / a history with a failure.")
@@ -44,7 +44,7 @@ COUNT_CFG = [("ET", "udp"), ("ET", "tcp"), ("DT", "udp"), ("DT", "tcp"), ("ES", 
 
 
 def n_count_sweep():
-    return 256 * len(COUNT_CFG)
+    return (256 + 243) * len(COUNT_CFG)
 
 
 def n_cases(tier):
@@ -68,15 +68,24 @@ def make_case(tier, seed, index):
     rnd = C.rng_for(seed, ID, index)
     i = index
     if i < n_count_sweep():
-        fam, tr = COUNT_CFG[i // 256]
-        bits = i % 256
-        hist = ["ok" if (bits >> j) & 1 else "fail" for j in range(8)]
+        fam, tr = COUNT_CFG[i // (256 + 243)]
+        bits = i % (256 + 243)
+        if bits < 256:
+            hist = ["ok" if (bits >> j) & 1 else "fail" for j in range(8)]
+        else:
+            # all histories of length 5 over {answered, silent, socket error}
+            x = bits - 256
+            hist = []
+            for j in range(5):
+                hist.append(["ok", "fail", "fail_err"][x % 3])
+                x //= 3
         return {"kind": "count", "family": fam, "transport": tr, "history": hist, "keep_alive": bool(bits & 1) ^ (fam == "DT"),
                 "timeout": 0.5, "retries": 1}
     i -= n_count_sweep()
     if i < N_COUNT_RANDOM[tier]:
         fam, tr = rnd.choice(COUNT_CFG)
-        hist = [rnd.choice(["ok", "fail", "fail", "reject"] if fam != "ES" else ["ok", "fail"]) for _ in range(rnd.randint(1, 8))]
+        hist = [rnd.choice(["ok", "fail", "fail_err", "fail_err", "reject"] if fam != "ES" else ["ok", "fail", "fail_err"])
+                for _ in range(rnd.randint(1, 8))]
         return {"kind": "count", "family": fam, "transport": tr, "history": hist, "keep_alive": rnd.random() < 0.5,
                 "timeout": rnd.choice([0.25, 1.0]), "retries": rnd.choice([0, 1, 2])}
     i -= N_COUNT_RANDOM[tier]
@@ -267,6 +276,16 @@ def run_count(case):
                 world.net.begin_script([], {"k": "ok"})
             elif h == "fail":
                 world.net.begin_script([], {"k": "drop"})
+            elif h == "fail_err":
+                # an OS-level socket error ends the request (UDP: reported through error_received; TCP: every
+                # connect attempt is refused)
+                e = [111, 113, 101, 104][len(recs) % 4]
+                if tr == "udp":
+                    world.net.begin_script([{"k": "senderr", "errno": e}] if len(recs) % 2 else
+                                           [{"k": "drop", "then": [{"ev": "icmp", "d": 0.125, "errno": e}]}], {"k": "drop"})
+                else:
+                    world.net.begin_script([], {"k": "drop"}, [], {"k": "refused", "d": 0.0})
+                    inv._protocol._close_transport() if False else None
             else:
                 world.net.begin_script([{"k": "exc", "code": 4}], {"k": "ok"})
             recs.append((h, await C.do_call(world, name, _call(inv, name))))
@@ -282,7 +301,7 @@ def run_count(case):
             if rec["outcome"] != "result":
                 violations.append(viol(f"C09:count:{fam}:{tr}:ok-failed", f"request {j} (answered) ended {rec['outcome']}"))
             streak = 0
-        elif h == "fail":
+        elif h in ("fail", "fail_err"):
             streak += 1
             if rec["outcome"] != "failed":
                 violations.append(viol(f"C09:count:{fam}:{tr}:not-failed",
